@@ -426,8 +426,9 @@ def all_paths_store(s):
 LOWER_BOUNDS = re.compile(r'^\(?\s*-\s*\(?\s*(DBL_MAX|FLT_MAX|LDBL_MAX|HUGE_VAL|INFINITY|__builtin_inf\w*\(\)|__builtin_huge_val\w*\(\))') if False else None
 
 
-def argmax_rule(chk, prog, funcs):
+def argmax_rule(chk, prog, funcs, stored=None):
     import re
+    from . import argmaxscalar
     R = chk.rule('OF.argmax', 'in an arg-max search `if(S[j] > ref) best_index = j` the reference is the element at the current best '
                  'index, or a running value that starts from an element of S or from -DBL_MAX/-INFINITY (never from a value some score '
                  'may lie below, such as 0 or DBL_MIN) and is updated together with the index')
@@ -509,6 +510,8 @@ def argmax_rule(chk, prog, funcs):
                 chk.violation(Finding('OF.argmax', rel(f.file), name, 'argmax:' + best_idx['name'], f.unit.where(n),
                                       '%s: arg-%s search over `%s`: %s; an object whose scores all lie on the other side keeps the initial index'
                                       % (name, 'max' if maximise else 'min', f.unit.text(cand)[:50], why)))
+    # scalar form `if (v > ref) { ref = v; best = j; }`: seed of the reference and (where named) the published score, see argmaxscalar.py
+    argmaxscalar.run(chk, prog, funcs, R, stored=stored)
 
 
 def per_index_values(chk, prog, funcs):
